@@ -342,6 +342,17 @@ func init() {
 		}
 		// long enough to consume the scripts over several terms (each demotion costs ~TTL)
 		p.Until = time.Duration(len(p.Insts[0].Health)+10)*p.H + 8*p.TTL
+		// connection notifications in the middle of unhealthy streaks (monitored instances): a
+		// reconnect and its successful verification are no healthy result
+		if r.Bool(0.4) {
+			for i := range p.Insts {
+				p.Insts[i].Monitor = true
+				p.Insts[i].Grace = time.Hour // never fires: only the notifications and the verification matter here
+			}
+			for k := 0; k < 3+r.Intn(10); k++ {
+				p.Actions = append(p.Actions, Action{At: r.Dur(p.H, p.Until), Kind: Pick(r, []string{AReconnect, AReconnect, ADisconnect}), Inst: r.Intn(n)})
+			}
+		}
 		// terms that end for another reason in the middle of an unhealthy streak (the record is
 		// removed, or the instance is stopped and started again): the next term counts from zero
 		if r.Bool(0.5) {
@@ -469,6 +480,22 @@ func init() {
 		}
 		p.Tail = 0
 		p.Sched = SchedCfg{YieldProb: Pick(r, []float64{0, 0.2}), StallMax: 0}
+		if r.Bool(0.3) {
+			// the outsider rewrites the record the moment an instance's own write (Create, or the
+			// takeover's Update) has been applied, i.e. while that instance is about to be promoted
+			// and its follower-side code (watcher, periodic check) is still running; goroutines are
+			// preempted often, with small stalls
+			for i := 0; i < n; i++ {
+				for _, kind := range []string{"create", "update"} {
+					if r.Bool(0.7) {
+						p.Actions = append(p.Actions, Action{Kind: AOutPut, Key: "g1", Inst: i, OpKind: kind, OpN: 1 + r.Intn(3), Phase: "apply", Delay: Pick(r, []time.Duration{1, 1, ms}),
+							Value: Pick(r, [][]byte{[]byte(`{"id":"intruder","token":"00000000-0000-4000-8000-000000000001","priority":7}`), payloadShapes(r)})})
+					}
+				}
+			}
+			p.Actions = append(p.Actions, Action{At: r.Dur(p.H, 4*p.H), Kind: AOutDelete, Key: "g1"})
+			p.Sched = SchedCfg{YieldProb: Pick(r, []float64{0.4, 0.7}), StallMax: Pick(r, []time.Duration{0, p.H / 20, p.H / 4})}
+		}
 		return p
 	}
 
@@ -641,6 +668,33 @@ func init() {
 	families["c06"] = func(r *Rng) *Plan {
 		p := &Plan{Judge: []string{"C06"}}
 		baseTiming(r, p, hLattice[:6])
+		if r.Bool(0.15) {
+			// a candidate whose demotion callback is slow: it was a follower, then led, was preempted
+			// by a higher-priority instance (which it learns from its watch), and while its OnDemote
+			// is still running the preemptor shuts down with key deletion: the vacancy must be filled
+			// by it all the same
+			p.Insts = []InstCfg{
+				{ID: "n1", Group: "g1", Prio: 1, PromoteMode: "return", DemoteDur: Pick(r, []time.Duration{3 * sec, 6 * sec})},
+				{ID: "n2", Group: "g1", Prio: 1, PromoteMode: "return"},
+				{ID: "n3", Group: "g1", Prio: 5, Takeover: true, PromoteMode: "return"},
+			}
+			p.Store = healthyStore(r, Pick(r, []time.Duration{p.H / 2, 100 * ms, 20 * ms}))
+			p.Store.WatchDelay = [2]Dur{0, Pick(r, []time.Duration{0, 10 * ms})}
+			t1 := r.Dur(2*p.H, 4*p.H)
+			t2 := t1 + p.TTL + r.Dur(2*sec, 4*sec)
+			t3 := t2 + r.Dur(500*ms, 2500*ms)
+			p.Actions = []Action{
+				{At: 0, Kind: AStart, Inst: 1},
+				{At: r.Dur(10*ms, p.H), Kind: AStart, Inst: 0},
+				{At: t1, Kind: AStopCtx, Inst: 1, DeleteKey: true},
+				{At: t2, Kind: AStart, Inst: 2},
+				{At: t3, Kind: AStopCtx, Inst: 2, DeleteKey: true, WaitForDemote: r.Bool(0.5)},
+			}
+			p.Until = t3 + 8*sec
+			p.Tail = p.TTL + 2*sec
+			p.Sched = SchedCfg{YieldProb: Pick(r, []float64{0, 0.2})}
+			return p
+		}
 		n := 2 + r.Intn(4)
 		p.Insts = mkInsts(r, n, 1)
 		for i := range p.Insts {
@@ -1170,6 +1224,19 @@ func init() {
 		p.Until = 7*sec + 3*p.TTL
 		p.Tail = 0
 		p.Sched = SchedCfg{YieldProb: Pick(r, []float64{0, 0.2}), StallMax: Pick(r, []time.Duration{0, p.H / 50})}
+		if r.Bool(0.3) {
+			// several acquisition rounds of one instance alive at once (every notification is
+			// delivered twice), attempts slow to start (up to a second), and the record removed
+			// again and again: a round that starts late may find the instance already leading
+			// and the record gone
+			p.Faults = []Fault{{Kind: FWatchDup, Inst: -1, From: 0, To: p.Until}}
+			p.Sched = SchedCfg{YieldProb: 0.8, StallMax: Pick(r, []time.Duration{300 * ms, 1 * sec}), StallSites: []string{"acquire.attempt"}}
+			t := r.Dur(p.H, 2*sec)
+			for t < p.Until-p.TTL {
+				p.Actions = append(p.Actions, Action{At: t, Kind: AOutDelete, Key: "g1"})
+				t += r.Dur(200*ms, 1500*ms)
+			}
+		}
 		return p
 	}
 }
